@@ -120,6 +120,16 @@ static string planarise_and_judge(Graph_SP g) {
         if (r.size() < 2) { Node_SP a = Q->getNodeLookup().at(p.second->getEndIds().first), b = Q->getNodeLookup().at(p.second->getEndIds().second); v.push_back({a->getCentre().x, a->getCentre().y, b->getCentre().x, b->getCentre().y}); }
         for (size_t k = 1; k < r.size(); k++) v.push_back({r[k - 1].x, r[k - 1].y, r[k].x, r[k].y}); qs.push_back(v); }
     for (size_t a = 0; a < qs.size(); a++) for (size_t b = a + 1; b < qs.size(); b++) for (auto &x : qs[a]) for (auto &y : qs[b]) if (properCross(x, y)) why = "two edges still cross";
+    // ... the drawing itself: no new node lies
+    // strictly inside an edge it does not end, and every NEW node lies on an original route (a bend) or on two of them (a crossing)
+    if (why.empty()) {
+        auto onOrig = [&](double x, double y) { int c = 0; for (auto &v : segs) { bool on = false; for (auto &g2 : v) if (fabs((g2.bx - g2.ax) * (y - g2.ay) - (x - g2.ax) * (g2.by - g2.ay)) < 1e-6 && x >= min(g2.ax, g2.bx) - 1e-6 && x <= max(g2.ax, g2.bx) + 1e-6 && y >= min(g2.ay, g2.by) - 1e-6 && y <= max(g2.ay, g2.by) + 1e-6) on = true; if (on) c++; } return c; };
+        for (auto &p : Q->getNodeLookup()) if (!orig.count(p.first)) { Avoid::Point c = p.second->getCentre(); if (onOrig(c.x, c.y) < 1) { why = mcx::fmt("new node %u at (%g,%g) lies on no original route", p.first, c.x, c.y); break; } }
+        if (why.empty()) for (auto &p : Q->getEdgeLookup()) { Node_SP a = Q->getNodeLookup().at(p.second->getEndIds().first), b = Q->getNodeLookup().at(p.second->getEndIds().second); Avoid::Point ca = a->getCentre(), cb = b->getCentre();
+            for (auto &q : Q->getNodeLookup()) if (q.first != a->id() && q.first != b->id() && !orig.count(q.first)) { Avoid::Point c = q.second->getCentre(); double cr2 = (cb.x - ca.x) * (c.y - ca.y) - (c.x - ca.x) * (cb.y - ca.y), dt = (c.x - ca.x) * (cb.x - ca.x) + (c.y - ca.y) * (cb.y - ca.y), L = (cb.x - ca.x) * (cb.x - ca.x) + (cb.y - ca.y) * (cb.y - ca.y);
+                if (p.second->getRoute().size() <= 2 && fabs(cr2) < 1e-6 && dt > 1e-6 && dt < L - 1e-6) { why = mcx::fmt("new node %u at (%g,%g) lies inside the edge %u-%u", q.first, c.x, c.y, a->id(), b->id()); break; } }
+            if (!why.empty()) break; }
+    }
     // every original adjacency survives as a chain through new (dummy) nodes only
     if (why.empty()) {
         map<id_type, vector<id_type>> adj; for (auto &p : Q->getEdgeLookup()) { auto e = p.second->getEndIds(); adj[e.first].push_back(e.second); adj[e.second].push_back(e.first); }
@@ -161,6 +171,33 @@ static void replanarise_phase(int edgeSet) {
     }
 }
 
+
+// hand-routed line arrangements: up to three horizontal and three vertical straight connectors (each between its own two small end nodes), each present over
+// any sub-extent of four stations or absent -- every arrangement.  A line is then crossed 0..3 times; the expected crossing points are known exactly.
+static void grid_planarise_phase(int NH, int NV) {
+    static const double ST[4] = {50, 150, 250, 350}, LN[3] = {100, 200, 300};
+    vector<pair<int, int>> ext; ext.push_back({-1, -1}); for (int a = 0; a < 4; a++) for (int b = a + 1; b < 4; b++) ext.push_back({a, b});
+    ctx.phase(mcx::fmt("planarise hand-routed arrangements of up to %d horizontal and %d vertical straight connectors, every sub-extent of each: dummy nodes exactly at the crossing points", NH, NV));
+    vector<int> idx(NH + NV, 0);
+    do {
+        if (ctx.stopped()) return; if (!ctx.next()) continue;
+        ostringstream t, e; int n = 0; vector<array<double, 4>> lines; string desc = "planarise lines:";
+        for (int k = 0; k < NH + NV; k++) { auto x = ext[idx[k]]; if (x.first < 0) continue; bool hz = k < NH; double c = LN[hz ? k : k - NH], a = ST[x.first], b = ST[x.second];
+            double x0 = hz ? a : c, y0 = hz ? c : a, x1 = hz ? b : c, y1 = hz ? c : b; t << n << " " << x0 << " " << y0 << " 10 10\n" << n + 1 << " " << x1 << " " << y1 << " 10 10\n"; e << n << " " << n + 1 << " " << x0 << " " << y0 << " " << x1 << " " << y1 << "\n"; n += 2;
+            lines.push_back({{x0, y0, x1, y1}}); desc += mcx::fmt(" %s%g[%g..%g]", hz ? "y=" : "x=", c, a, b); }
+        if (n == 0) { ctx.done_case(); continue; }
+        set<pair<double, double>> want; for (auto &h : lines) for (auto &v : lines) if (h[1] == h[3] && v[0] == v[2] && v[0] > h[0] && v[0] < h[2] && h[1] > v[1] && h[1] < v[3]) want.insert({v[0], h[1]});
+        ctx.count("states"); ctx.sample(desc, 1); if (want.size() >= 2) ctx.count("nontrivial"); string why;
+        try { string str = t.str() + "#\n" + e.str(); Graph_SP g = buildGraphFromTglf(str); set<id_type> orig; for (auto &p : g->getNodeLookup()) orig.insert(p.first);
+            why = planarise_and_judge(g);
+            if (why.empty()) { OrthoPlanariser op(g); Graph_SP Q = op.planarise(); multiset<pair<double, double>> got; for (auto &p : Q->getNodeLookup()) if (!orig.count(p.first)) got.insert({p.second->getCentre().x, p.second->getCentre().y});
+                for (auto &w : want) if (got.count(w) != 1) why = mcx::fmt("%zu new node(s) at the crossing point (%g,%g)", got.count(w), w.first, w.second);
+                for (auto &q : got) if (!want.count(q)) why = mcx::fmt("a new node at (%g,%g), which is not a crossing point", q.first, q.second); }
+        } catch (std::exception &ex) { why = std::string("planarise threw ") + ex.what(); } catch (vpsc::CriticalFailure &f) { ctx.library_abort(f.what(), desc); ctx.done_case(); continue; }
+        if (!why.empty()) ctx.violation("planarise", {}, desc, why);
+        ctx.done_case();
+    } while (mcx::odo_next(idx, (int)ext.size()));
+}
 template <class F> static void all_graphs(int n, bool connectedOnly, F f) {
     EL all; for (int i = 0; i < n; i++) for (int j = i + 1; j < n; j++) all.push_back({i, j});
     for (unsigned mask = 0; mask < (1u << all.size()) && !ctx.stopped(); mask++) {
@@ -203,6 +240,7 @@ int main(int argc, char **argv) {
         ctx.phase(mcx::fmt("planarise: all labelled leafless connected graphs n=%d routed by LeaflessOrthoRouter", n));
         all_graphs(n, true, [&](const EL &es) { vector<int> deg(n, 0); for (auto &e : es) { deg[e.first]++; deg[e.second]++; } for (int d : deg) if (d < 2) return; if (!ctx.next()) return; ctx.count("states"); ctx.sample(gstr(n, es)); check_planarise(n, es); ctx.done_case(); });
     }
+    grid_planarise_phase(2, 2); grid_planarise_phase(2, 3); if (T) grid_planarise_phase(3, 3);
     replanarise_phase(0); if (T) replanarise_phase(1);
     return ctx.finish();
 }
